@@ -10,7 +10,9 @@ use std::process::{Child, ChildStdin, ChildStdout, Command, Stdio};
 use std::sync::atomic::{AtomicU64, Ordering};
 use std::time::{Duration, Instant};
 
-pub const TGT_BIN: &str = "/verif/out/tgt";
+pub fn tgt_bin() -> PathBuf {
+    crate::fw::verif_root().join("out/tgt")
+}
 pub const MAX_THREADS: usize = 80;
 pub const NSIG_SLOTS: usize = 8;
 pub const SHARED_SIZE: usize = 8 * MAX_THREADS + 2 * 8 * MAX_THREADS * NSIG_SLOTS + 8;
@@ -122,7 +124,7 @@ pub struct Target {
 
 impl Target {
     pub fn scratch_root() -> PathBuf {
-        PathBuf::from("/verif/out/scratch")
+        crate::fw::verif_root().join("out/scratch")
     }
 
     /// Creates a fresh scratch directory for one target.
@@ -236,7 +238,7 @@ impl Target {
         s.push_str("end\n");
         let spec_path = scratch.join("spec");
         std::fs::write(&spec_path, &s).map_err(|x| e("spec", x))?;
-        let mut cmd = Command::new(TGT_BIN);
+        let mut cmd = Command::new(tgt_bin());
         cmd.arg(&spec_path);
         for a in &spec.argv {
             cmd.arg(std::ffi::OsStr::from_bytes(a));
